@@ -165,7 +165,7 @@ func (f *StringFormatter) Format(format string, values []value.Primary) (string,
 				s = values[placeholderOrder].String()
 			}
 
-			if -1 < precision {
+			if -1 < precision && precision < len(s) {
 				s = s[:precision]
 			}
 
@@ -180,7 +180,7 @@ func (f *StringFormatter) Format(format string, values []value.Primary) (string,
 		case 'T':
 			rv := reflect.ValueOf(values[placeholderOrder]).Elem().Interface()
 			s = reflect.TypeOf(rv).Name()
-			if -1 < precision {
+			if -1 < precision && precision < len(s) {
 				s = s[:precision]
 			}
 
